@@ -146,27 +146,90 @@ struct Run {
     sample_kinds: BTreeSet<String>,
 }
 
-fn violation(meta: &Meta, clause: &str, what: String, value: usize, be: bool, offset: usize, extra: J) -> Violation {
-    Violation::new(
+/// Largest number of elements of any array / dict inside a value tree, as a class.
+fn max_array_len(rv: &RV) -> usize {
+    match rv {
+        RV::Array(_, xs) => xs.iter().map(max_array_len).max().unwrap_or(0).max(xs.len()),
+        RV::Dict(_, _, xs) => xs
+            .iter()
+            .map(|(k, v)| max_array_len(k).max(max_array_len(v)))
+            .max()
+            .unwrap_or(0)
+            .max(xs.len()),
+        RV::Struct(xs) => xs.iter().map(max_array_len).max().unwrap_or(0),
+        RV::V(b) => max_array_len(&b.1),
+        RV::Maybe(_, Some(x)) => max_array_len(x),
+        _ => 0,
+    }
+}
+
+struct Case<'a> {
+    meta: &'a Meta,
+    value: usize,
+    be: bool,
+    offset: usize,
+    expected: Option<&'a RV>,
+}
+
+/// A violation with its narrow identity: the oracle clause plus
+/// * `kind`: the kind of the outermost type constructor,
+/// * `stage`: where the disagreement shows (signature / serialize / conformance / value / deserialize / compare),
+/// * `max_array_len`: 0, 1 or 2+ (largest array or dict in the value),
+/// * one `tag_<t>=true` per structural tag the generator attached to the type (e.g. a data enum as
+///   array element, a newtype variant with a structure payload, a `PhantomData` member).
+fn violation(c: &Case<'_>, clause: &str, stage: &str, what: String, extra: J) -> Violation {
+    let meta = c.meta;
+    let mut v = Violation::new(
         clause,
         format!(
             "type #{} `{}` [{}] value #{} {} offset {}: {}",
             meta.index,
             meta.rust,
             meta.shape,
-            value,
-            if be { "BE" } else { "LE" },
-            offset,
+            c.value,
+            if c.be { "BE" } else { "LE" },
+            c.offset,
             what
         ),
         json!({
-            "index": meta.index, "value": value, "be": be, "offset": offset,
+            "index": meta.index, "value": c.value, "be": c.be, "offset": c.offset,
             "rust": meta.rust, "shape": meta.shape, "definition": meta.definition,
             "expected_signature": meta.expected_signature, "observed": extra,
         }),
     )
     .feat("kind", meta.kind)
-    .feat("shape", meta.shape)
+    .feat("stage", stage)
+    .feat(
+        "max_array_len",
+        match c.expected.map(max_array_len).unwrap_or(0) {
+            0 => "0",
+            1 => "1",
+            _ => "2+",
+        },
+    );
+    for t in meta.tags.split(',').filter(|t| !t.is_empty()) {
+        v = v.feat(&format!("tag_{t}"), "true");
+    }
+    v
+}
+
+/// The type-specific operations, behind `dyn` so that the checking logic is compiled once and not
+/// once per bank type.
+struct Ops<'a> {
+    signature: &'a dyn Fn() -> String,
+    expected: &'a [RV],
+    debug: &'a dyn Fn(usize) -> String,
+    ser: &'a dyn Fn(usize, bool, usize) -> zvariant::Result<Vec<u8>>,
+    /// deserialize; returns (equal to the original value, Debug of the result, bytes consumed)
+    back: &'a dyn Fn(usize, &[u8], bool, usize) -> zvariant::Result<(bool, String, usize)>,
+}
+
+fn ctxt(be: bool, offset: usize) -> Context {
+    if be {
+        Context::new_dbus(BE, offset)
+    } else {
+        Context::new_dbus(LE, offset)
+    }
 }
 
 impl Visitor for Run {
@@ -182,6 +245,23 @@ impl Visitor for Run {
                 return;
             }
         }
+        let (vs, expected): (Vec<T>, Vec<RV>) = values().into_iter().unzip();
+        let ops = Ops {
+            signature: &|| T::SIGNATURE.to_string(),
+            expected: &expected,
+            debug: &|i| format!("{:?}", vs[i]),
+            ser: &|i, be, offset| to_bytes(ctxt(be, offset), &vs[i]).map(|d| d.bytes().to_vec()),
+            back: &|i, bytes, be, offset| {
+                let data = zvariant::serialized::Data::new(bytes.to_vec(), ctxt(be, offset));
+                data.deserialize::<T>().map(|(t, n)| (t == vs[i], format!("{t:?}"), n))
+            },
+        };
+        self.check_entry(meta, &ops);
+    }
+}
+
+impl Run {
+    fn check_entry(&mut self, meta: &Meta, ops: &Ops<'_>) {
         self.bank_types += 1;
         if !meta.definition.is_empty() {
             self.programs += 1;
@@ -190,49 +270,47 @@ impl Visitor for Run {
             self.capped_types += 1;
         }
         self.kinds.insert(meta.kind.to_string());
+        let type_case = Case { meta, value: 0, be: false, offset: 0, expected: None };
 
-        let declared = match catch(|| T::SIGNATURE.to_string()) {
+        self.acc.eval(1);
+        let declared = match catch(|| (ops.signature)()) {
             Ok(s) => s,
             Err(p) => {
-                self.acc.eval(1);
-                self.acc.violation(violation(meta, "signature-as-documented", format!("T::SIGNATURE panicked: {p}"), 0, false, 0, json!(null)));
+                self.acc.violation(violation(&type_case, "signature-as-documented", "signature", format!("T::SIGNATURE panicked: {p}"), json!(null)));
                 return;
             }
         };
-        self.acc.eval(1);
         if declared != meta.expected_signature {
             self.acc.outcome("signature-differs-from-documented");
             self.acc.violation(violation(
-                meta,
+                &type_case,
                 "signature-as-documented",
+                "signature",
                 format!("T::SIGNATURE is `{declared}`, the documented mapping gives `{}`", meta.expected_signature),
-                0,
-                false,
-                0,
                 json!({"declared": declared}),
             ));
         } else {
             self.acc.outcome("signature-as-documented");
         }
+        if self.verbose {
+            println!("declared signature: `{declared}`");
+        }
         // The declared signature as a harness type ("" = unit: no bytes).
         let declared_ty = if declared.is_empty() { None } else { parse_ty(&declared) };
         if !declared.is_empty() && declared_ty.is_none() {
             self.acc.violation(violation(
-                meta,
+                &type_case,
                 "bytes-conform-to-declared-signature",
+                "signature",
                 format!("declared signature `{declared}` is not one complete D-Bus type"),
-                0,
-                false,
-                0,
                 json!({"declared": declared}),
             ));
             return;
         }
         let nontrivial_type = !meta.definition.is_empty() || declared.len() > 1;
 
-        let vals = values();
         let mut first_bytes: Option<Vec<u8>> = None;
-        for (vi, (v, expected)) in vals.iter().enumerate() {
+        for (vi, expected) in ops.expected.iter().enumerate() {
             if let Some(f) = &self.filter {
                 if f.value != vi {
                     continue;
@@ -240,35 +318,37 @@ impl Visitor for Run {
             }
             self.values += 1;
             let shown = if declared.is_empty() { "()".to_string() } else { expected.show() };
+            let dbg = catch(|| (ops.debug)(vi)).unwrap_or_else(|_| "<Debug panicked>".into());
             if nontrivial_type {
                 self.acc.nontrivial(hash64(&(meta.index, &shown)));
             }
             for be in [false, true] {
-                for &offset in &self.offsets {
+                for oi in 0..self.offsets.len() {
+                    let offset = self.offsets[oi];
                     if let Some(f) = &self.filter {
                         if f.be != be || f.offset != offset {
                             continue;
                         }
                     }
+                    let case = Case { meta, value: vi, be, offset, expected: Some(expected) };
                     self.acc.eval(1);
                     // ---- serialize
-                    let enc = catch(|| {
-                        if be {
-                            to_bytes(Context::new_dbus(BE, offset), v).map(|d| d.bytes().to_vec())
-                        } else {
-                            to_bytes(Context::new_dbus(LE, offset), v).map(|d| d.bytes().to_vec())
-                        }
-                    });
-                    let bytes = match enc {
+                    let bytes = match catch(|| (ops.ser)(vi, be, offset)) {
                         Ok(Ok(b)) => b,
                         Ok(Err(e)) => {
+                            if self.verbose {
+                                println!("value: {dbg}\nto_bytes: error {e}");
+                            }
                             self.acc.outcome("serialize-error");
-                            self.acc.violation(violation(meta, "round-trip", format!("to_bytes({v:?}) failed: {e}"), vi, be, offset, json!({"error": e.to_string()})));
+                            self.acc.violation(violation(&case, "round-trip", "serialize", format!("to_bytes({dbg}) failed: {e}"), json!({"error": e.to_string()})));
                             continue;
                         }
                         Err(p) => {
+                            if self.verbose {
+                                println!("value: {dbg}\nto_bytes: panic {p}");
+                            }
                             self.acc.outcome("serialize-panic");
-                            self.acc.violation(violation(meta, "round-trip", format!("to_bytes({v:?}) panicked: {p}"), vi, be, offset, json!({"panic": p})));
+                            self.acc.violation(violation(&case, "round-trip", "serialize", format!("to_bytes({dbg}) panicked: {p}"), json!({"panic": p})));
                             continue;
                         }
                     };
@@ -276,7 +356,7 @@ impl Visitor for Run {
                         first_bytes = Some(bytes.clone());
                     }
                     if self.verbose {
-                        println!("value: {v:?}\nexpected tree: {shown}\ndeclared signature: `{declared}`\nbytes: {}", hex(&bytes));
+                        println!("value: {dbg}\npredicted tree: {shown}\nbytes: {}", hex(&bytes));
                     }
                     let mut ok = true;
                     // ---- bytes conform to the declared signature, and carry the predicted value
@@ -284,8 +364,8 @@ impl Visitor for Run {
                         None => {
                             if !bytes.is_empty() {
                                 ok = false;
-                                self.acc.violation(violation(meta, "bytes-conform-to-declared-signature",
-                                    format!("empty signature but {} bytes serialized: {}", bytes.len(), hex(&bytes)), vi, be, offset, json!({"bytes": hex(&bytes)})));
+                                self.acc.violation(violation(&case, "bytes-conform-to-declared-signature", "conformance",
+                                    format!("empty signature but {} bytes serialized: {}", bytes.len(), hex(&bytes)), json!({"bytes": hex(&bytes)})));
                             }
                         }
                         Some(ty) => match refdbus::decode(ty, &bytes, be, offset, 0) {
@@ -294,8 +374,8 @@ impl Visitor for Run {
                                 if self.verbose {
                                     println!("reference decoder under `{declared}`: rejects ({r:?})");
                                 }
-                                self.acc.violation(violation(meta, "bytes-conform-to-declared-signature",
-                                    format!("{v:?} serializes to {} which is not a valid `{declared}` ({r:?})", hex(&bytes)), vi, be, offset,
+                                self.acc.violation(violation(&case, "bytes-conform-to-declared-signature", "conformance",
+                                    format!("{dbg} serializes to [{}] which is not a valid `{declared}` ({r:?})", hex(&bytes)),
                                     json!({"bytes": hex(&bytes), "declared": declared, "reject": format!("{r:?}")})));
                             }
                             Ok((got, used)) => {
@@ -304,34 +384,29 @@ impl Visitor for Run {
                                 }
                                 if used != bytes.len() {
                                     ok = false;
-                                    self.acc.violation(violation(meta, "bytes-conform-to-declared-signature",
-                                        format!("{v:?} serializes to {} bytes but a `{declared}` ends after {used}: {}", bytes.len(), hex(&bytes)), vi, be, offset,
+                                    self.acc.violation(violation(&case, "bytes-conform-to-declared-signature", "conformance",
+                                        format!("{dbg} serializes to {} bytes but a `{declared}` ends after {used}: {}", bytes.len(), hex(&bytes)),
                                         json!({"bytes": hex(&bytes), "declared": declared, "used": used})));
                                 } else if !rv_eq(&got, expected) {
                                     ok = false;
-                                    self.acc.violation(violation(meta, "decoded-value",
-                                        format!("{v:?} serializes to {} = {} under `{declared}`, predicted {}", hex(&bytes), got.show(), shown), vi, be, offset,
+                                    self.acc.violation(violation(&case, "decoded-value", "value",
+                                        format!("{dbg} serializes to {} = {} under `{declared}`, predicted {}", hex(&bytes), got.show(), shown),
                                         json!({"bytes": hex(&bytes), "declared": declared, "decoded": got.show(), "predicted": shown})));
                                 }
                             }
                         },
                     }
                     // ---- round trip through the library's own deserializer
-                    let back = catch(|| {
-                        let ctxt = if be { Context::new_dbus(BE, offset) } else { Context::new_dbus(LE, offset) };
-                        let data = zvariant::serialized::Data::new(bytes.clone(), ctxt);
-                        data.deserialize::<T>().map(|(t, n)| (t, n))
-                    });
-                    match back {
-                        Ok(Ok((t, n))) => {
+                    match catch(|| (ops.back)(vi, &bytes, be, offset)) {
+                        Ok(Ok((equal, back_dbg, n))) => {
                             if self.verbose {
-                                println!("deserialized back: {t:?} ({n} bytes)");
+                                println!("deserialized back: {back_dbg} ({n} bytes)");
                             }
-                            if t != *v || n != bytes.len() {
+                            if !equal || n != bytes.len() {
                                 ok = false;
-                                self.acc.violation(violation(meta, "round-trip",
-                                    format!("{v:?} -> {} -> {t:?} ({n} of {} bytes)", hex(&bytes), bytes.len()), vi, be, offset,
-                                    json!({"bytes": hex(&bytes), "back": format!("{t:?}"), "used": n})));
+                                self.acc.violation(violation(&case, "round-trip", "compare",
+                                    format!("{dbg} -> {} -> {back_dbg} ({n} of {} bytes)", hex(&bytes), bytes.len()),
+                                    json!({"bytes": hex(&bytes), "back": back_dbg, "used": n})));
                             }
                         }
                         Ok(Err(e)) => {
@@ -339,14 +414,14 @@ impl Visitor for Run {
                             if self.verbose {
                                 println!("deserialized back: error {e}");
                             }
-                            self.acc.violation(violation(meta, "round-trip",
-                                format!("{v:?} -> {} does not deserialize: {e}", hex(&bytes)), vi, be, offset,
+                            self.acc.violation(violation(&case, "round-trip", "deserialize",
+                                format!("{dbg} -> {} does not deserialize: {e}", hex(&bytes)),
                                 json!({"bytes": hex(&bytes), "error": e.to_string()})));
                         }
                         Err(p) => {
                             ok = false;
-                            self.acc.violation(violation(meta, "round-trip",
-                                format!("{v:?} -> {} : deserializer panicked: {p}", hex(&bytes)), vi, be, offset,
+                            self.acc.violation(violation(&case, "round-trip", "deserialize",
+                                format!("{dbg} -> {} : deserializer panicked: {p}", hex(&bytes)),
                                 json!({"bytes": hex(&bytes), "panic": p})));
                         }
                     }
@@ -355,14 +430,14 @@ impl Visitor for Run {
                         self.acc.sample(json!({
                             "type": meta.rust, "shape": meta.shape,
                             "definition": meta.definition, "signature": declared,
-                            "value": format!("{v:?}"), "tree": shown, "bytes_le": hex(&bytes),
+                            "value": dbg, "tree": shown, "bytes_le": hex(&bytes),
                         }));
                     }
                 }
             }
         }
         // ---- negative control: the previous entry's bytes under this entry's signature.  Shows that
-        // the reference decoder + value comparison can tell conforming from non-conforming bytes.
+        // the reference decoder can tell conforming from non-conforming bytes.
         if self.filter.is_none() {
             if let (Some((psig, pbytes)), Some(ty)) = (&self.prev, &declared_ty) {
                 if *psig != declared {
